@@ -911,6 +911,15 @@ def make_closure(unit, blk, k, ca, cparams, cbody, ftext, ftoks, start_idx, base
     outer |= {p for p in sig_param_names(blk.sig)}
     pnames = {t.text for t in tokenize(cparams) if t.kind == "id"}
     used = (body_ids & outer) - pnames
+    # a name whose first occurrence in the closure body is its own `let` binding is a local, not a capture
+    ctoks = tokenize(cbody)
+    for nm in list(used):
+        for ci, ct in enumerate(ctoks):
+            if ct.kind == "id" and ct.text == nm:
+                prev = [x.text for x in ctoks[max(0, ci - 2):ci]]
+                if prev[-1:] == ["let"] or prev[-2:] == ["let", "mut"]:
+                    used.discard(nm)
+                break
     declared = {nm for (_, nm, _) in caps}
     if used != declared:
         raise ExtractError(f"lost anchor: closure {k} of {base['src_fn']} captures {sorted(used)}, contract declares {sorted(declared)}")
